@@ -31,3 +31,6 @@ CHECKS["C11"] = check_text.run
 
 import check_unicode
 CHECKS["C10"] = check_unicode.run
+
+import check_figure
+CHECKS["C16"] = check_figure.run
